@@ -64,7 +64,7 @@ Qed.
 Lemma single_driver_b_iff : forall s, single_driver_b s = true <-> single_driver s.
 Proof.
   intros s. unfold single_driver_b, single_driver. rewrite forallb_seq. split; intros H w.
-  - intros q Hw. specialize (H w Hw). apply list_eqb_nat in H.
+  - intros q Hw Hb. specialize (H w Hw). rewrite Hb in H. cbn [orb] in H. apply list_eqb_nat in H.
     assert (M : In q (filter (driver_b s w) (seq 0 (nport s))) <-> driver s q w).
     { rewrite In_filter_seq. split.
       - intros [A B]. now apply driver_b_iff.
@@ -72,14 +72,15 @@ Proof.
     rewrite <- M, H. destruct (wsource s w) as [q0|]; cbn; split; intros X; try tauto; try discriminate.
     + destruct X as [X|[]]. congruence.
     + inversion X. auto.
-  - intros Hw. apply list_eqb_nat.
+  - intros Hw. destruct (wbidir s w) eqn:Hb; [reflexivity|]. cbn [orb]. apply list_eqb_nat.
+    assert (H' : forall q, driver s q w <-> wsource s w = Some q) by (intros q; apply H; auto). clear H. rename H' into H.
     destruct (wsource s w) as [q0|] eqn:E.
     + apply singleton_list; [apply NoDup_filter_seq|]. intros x. rewrite In_filter_seq. split.
-      * intros [A B]. apply driver_b_iff in B; auto. apply H in B; auto. congruence.
+      * intros [A B]. apply driver_b_iff in B; auto. apply H in B. congruence.
       * intros ->. assert (D : driver s q0 w) by (apply H; auto). split; [apply D | apply driver_b_iff; auto; apply D].
     + destruct (filter (driver_b s w) (seq 0 (nport s))) as [|x l] eqn:F; auto. exfalso.
       assert (X : In x (filter (driver_b s w) (seq 0 (nport s)))) by (rewrite F; now left).
-      apply In_filter_seq in X. destruct X as [A B]. apply driver_b_iff in B; auto. apply H in B; auto. congruence.
+      apply In_filter_seq in X. destruct X as [A B]. apply driver_b_iff in B; auto. apply H in B. congruence.
 Qed.
 
 Lemma unique_children_b_iff : forall s, unique_children_b s = true <-> unique_children s.
@@ -202,15 +203,18 @@ Proof.
 Qed.
 
 Lemma undriven_port_b_iff : forall s h, unique_children s -> h < nobj s ->
-  (undriven_port_b s h = true <-> exists q, visited s h q /\ undriven s q).
+  (undriven_port_b s h = true <-> exists q, visited s h q /\ no_driver s q).
 Proof.
-  intros s h UC Hh. unfold undriven_port_b, visited, undriven. rewrite existsb_seq. split.
+  intros s h UC Hh. unfold undriven_port_b, visited, no_driver. rewrite existsb_seq. split.
   - intros [o [Ho H]]. apply andb_true_iff in H. destruct H as [A B].
     apply anc_b_iff in A; auto. apply existsb_exists in B. destruct B as [q [Hin Hq]].
     exists q. split.
     + exists o. split; auto. now apply in_app_iff.
-    + apply negb_true_iff in Hq. destruct (wsource s (pwire s q)); [discriminate | reflexivity].
+    + destruct (wbidir s (pwire s q)).
+      * destruct (wsources s (pwire s q)); [reflexivity | discriminate].
+      * apply negb_true_iff in Hq. destruct (wsource s (pwire s q)); [discriminate | reflexivity].
   - intros [q [[o [B Hin]] U]]. exists o. destruct (below_le s UC h o Hh B) as [_ Ho]. split; auto.
     apply andb_true_iff. split; [now apply anc_b_iff|].
-    apply existsb_exists. exists q. split; [now apply in_app_iff|]. now rewrite U.
+    apply existsb_exists. exists q. split; [now apply in_app_iff|].
+    destruct (wbidir s (pwire s q)); now rewrite U.
 Qed.
